@@ -58,7 +58,8 @@ bool add_items(metatype &to, const node *head, const relation *relation, logger 
 	for (; head; head = head->next) {
 		metatype *from = head->_meta;
 		
-		if (grp && from && from->addref()) {
+		// element holds an item instance (a text value is a property, whatever its storage)
+		if (grp && from && !from->string() && from->addref()) {
 			reference<metatype> m;
 			m.set_instance(from);
 			// reference is taken over by the new group item
